@@ -17,7 +17,7 @@ MssOf(kind, n, upd, N) ==
     [] kind = "mid" -> 4 * n
     [] kind = "bse" -> 10 * n                         \* what BSE::solve_hermitian passes
     [] kind = "huge" -> N + 7                         \* clamped to N by checkOptions
-SigOf(kind, n) == CASE kind = "default" -> 0 [] kind = "wide" -> 3 * n
+SigOf(kind, n) == CASE kind = "default" -> 0 [] kind = "wide" -> 3 * n [] kind = "tight" -> n   \* solve(A, neigen, neigen)
 
 \* quantifier of the property: neigen from 1 to size/4
 InDomain(cf) == WellFormed(cf) /\ cf.neigen <= cf.N \div 4
